@@ -2,6 +2,8 @@
 
 #include <yaclib/fault/detail/fiber/atomic_wait.hpp>
 
+#include <cstring>
+#include <memory>
 #include <utility>
 
 namespace yaclib::detail::fiber {
@@ -70,7 +72,8 @@ class AtomicBase : public AtomicWait<T> {
 
  protected:
   bool CompareExchangeHelper(T& expected, T desired) {
-    if (this->_value == expected) {
+    // std::atomic compares value representations, it matters for floating point (NaN, signed zero)
+    if (std::memcmp(std::addressof(this->_value), std::addressof(expected), sizeof(T)) == 0) {
       this->_value = desired;
       return true;
     } else {
